@@ -57,13 +57,11 @@ func (dm *DMap) fragmentMergeFunction(f *fragment, hkey uint64, entry storage.En
 }
 
 func (dm *DMap) mergeFragments(part *partitions.Partition, fp *fragmentPack) error {
-	f, err := dm.loadOrCreateFragment(part)
+	// Acquire fragment's lock. No one should work on it.
+	f, err := dm.lockFragment(part)
 	if err != nil {
 		return err
 	}
-
-	// Acquire fragment's lock. No one should work on it.
-	f.Lock()
 	defer f.Unlock()
 	verifhook.At("merge.locked", dm.s.rt.This().String(), dm.name, part.ID(), part.Kind().String())
 
